@@ -439,6 +439,30 @@ def _base_scenarios(tier, seed, max_cells=None, halos=True, profile_seed=None):
             sc["precision"] = "single" if k % 4 == 0 else "double"
             sc["growth"] = round(growth(z, prof, dx, dy), 2)
             out.append(sc)
+    if halos:
+        # a halo that IS a whole number of cells but whose float quotient falls just below it
+        # (30.9 / 10.3 = 2.9999999999999996): pad width and every shift must agree on 3 cells
+        for (ny, nx, dx, dy, halo) in [(4, 4, 10.3, 11.5, 30.9), (3, 4, 12.0, 10.3, 30.9)] + ([] if tier == "quick" else [(5, 8, 10.3, 11.5, 30.9), (4, 2, 11.5, 10.3, 30.9)]):
+            dxs, dys = (nx * dx) / nx, (ny * dy) / ny
+            assert int(halo / dxs) != int(halo / dxs + 1e-9) or int(halo / dys) != int(halo / dys + 1e-9)
+            for attempt in range(6):
+                pid = pids[k % len(pids)]
+                n = ns[(k // 2) % len(ns)]
+                k += 1
+                pseed = seed if profile_seed is None else profile_seed
+                z, prof = profiles(pid, n, seed=pseed)
+                if growth(z, prof, dx, dy) <= GROWTH_CAP[tier]:
+                    break
+            else:
+                continue
+            sc = dict(ny=ny, nx=nx, dx=dx, dy=dy, pid=pid, n=n, halo=halo, seed=pseed)
+            nxe, nye, px, py = padded(sc)
+            sc["modes"] = (max(2, (nxe // 2) * 2), max(2, (nye // 2) * 2)) if k % 2 else (nxe + 2 + nxe % 2, nye + 4 + nye % 2)
+            sc["levels"] = [0, n] if k % 2 else list(range(n + 1))
+            sc["precision"] = "double"
+            sc["growth"] = round(growth(z, prof, dx, dy), 2)
+            sc["halo_class"] = "whole cells, float-lossy quotient"
+            out.append(sc)
     return out
 
 
